@@ -12,17 +12,17 @@ git checkout -q -- . ; git clean -fdq tests
 git apply $OUT/patch.diff || { echo "patch does not apply"; exit 1; }
 cp $OUT/demo.rs tests/zz_seed_demo.rs
 echo "== suite with patch"
-cargo test --offline 2>&1 | grep -E "^test result|FAILED|error(\[|:)" | grep -v zz_seed | head -12
-S1=$(cargo test --offline 2>&1 | grep -E "^test result" | grep -c FAILED)
+cargo test -j 3 --offline 2>&1 | grep -E "^test result|FAILED|error(\[|:)" | grep -v zz_seed | head -12
+S1=$(cargo test -j 3 --offline 2>&1 | grep -E "^test result" | grep -c FAILED)
 echo "== suite with patch, all features"
-cargo test --offline --features partial,value,serde 2>&1 | grep -E "^test result|FAILED|error(\[|:)" | head -14
+cargo test -j 3 --offline --features partial,value,serde 2>&1 | grep -E "^test result|FAILED|error(\[|:)" | head -14
 echo "== demo with patch (must fail)"
-cargo test --offline --features partial,value,serde --test zz_seed_demo 2>&1 | grep -E "^test result|^test .*FAILED|error(\[|:)" | head -8
-D1=$(cargo test --offline --features partial,value,serde --test zz_seed_demo 2>&1 | grep -E "^test result" | grep -c "FAILED")
+cargo test -j 3 --offline --features partial,value,serde --test zz_seed_demo 2>&1 | grep -E "^test result|^test .*FAILED|error(\[|:)" | head -8
+D1=$(cargo test -j 3 --offline --features partial,value,serde --test zz_seed_demo 2>&1 | grep -E "^test result" | grep -c "FAILED")
 git apply -R $OUT/patch.diff
 echo "== demo without patch (must pass)"
-cargo test --offline --features partial,value,serde --test zz_seed_demo 2>&1 | grep -E "^test result|error(\[|:)" | head -4
-D0=$(cargo test --offline --features partial,value,serde --test zz_seed_demo 2>&1 | grep -E "^test result" | grep -c "ok\.")
+cargo test -j 3 --offline --features partial,value,serde --test zz_seed_demo 2>&1 | grep -E "^test result|error(\[|:)" | head -4
+D0=$(cargo test -j 3 --offline --features partial,value,serde --test zz_seed_demo 2>&1 | grep -E "^test result" | grep -c "ok\.")
 rm -f tests/zz_seed_demo.rs
 echo "demo_fails_with_patch=$D1 demo_passes_without=$D0"
 if [ "$D1" -ge 1 ] && [ "$D0" -ge 1 ]; then
